@@ -1,7 +1,7 @@
 (* TTML through the plain view (C07), at byte level: the writer's bytes with the default indent option, read back
    by the XML parser model (Kit/XmlParse.v) followed by the tree reader.  Definitions only. *)
 From Coq Require Import List ZArith NArith Bool.
-From Astisub Require Import Kit.Base Kit.Str Kit.Xml Kit.XmlParse Kit.XmlParse2 Model.Dur Model.Ttml Model.Plain.
+From Astisub Require Import Kit.Base Kit.Str Kit.Xml Kit.XmlParse Kit.XmlParse2 Kit.XmlEsc Model.Dur Model.Ttml Model.TtmlGo Model.Plain.
 Import ListNotations.
 
 (* WriteToTTMLOptions{Indent: "    "} *)
@@ -17,7 +17,8 @@ Definition ttml_to_plain (d : tdoc) : plain :=
 (* ReadFromTTML on bytes of the XML subset the encoder emits *)
 Definition read_ttml_bytes (data : str) : res tdoc :=
   match xml_parse data with Some t => read_ttml t | None => Err EParse end.
-Definition ttml_enc (p : plain) : res str := write_ttml_bytes ttml_default_indent (ttml_of_plain p).
+(* the bytes as Go's encoder writes them (xml.EscapeText exactly: Kit/XmlEsc.v) *)
+Definition ttml_enc (p : plain) : res str := write_ttml_bytes_go ttml_default_indent (ttml_of_plain p).
 Definition ttml_dec : str -> res plain := dec_with read_ttml_bytes ttml_to_plain.
 
 (* the same decoder over the XML parser model for hand-written documents (Kit/XmlParse2.v: prolog, both quote styles,
